@@ -13,50 +13,50 @@ NOTE = ("Trusted base: clang 14 front end + CFG builder on the flags of the comp
 
 CLAIMS = {
     # pid: (technique, level text, design_ref)
-    "C02": ("must-pass-through on the tokenizer loop and parse_next (every parsed chunk added, failure exits, discarded-character census); single-emit/every-emit path analysis of output_text's chunk loop; fusion guard (who-may-call + exact guards of the PCF_FORCE_SPACE setters); dominance of the column advance; guard analysis of the newline makers; shared effect census with liveness under the default configuration",
+    "C02": ("must-pass-through on the tokenizer loop and parse_next (every parsed chunk added, failure exits, discarded-character census); single-emit/every-emit path analysis of output_text's chunk loop; fusion guard (who-may-call + exact guards of the PCF_FORCE_SPACE setters); dominance of the column advance; guard analysis of the newline makers; shared effect census with liveness under the default configuration; constant folding of the fusion guard over the extracted punctuator table (9 languages x all punctuator pairs, comment openers in the lexical alphabet); guard census of every line-break deletion/swap (SafeToDeleteNl)",
             "The tokenizer is shown to add every parsed non-whitespace chunk and to drop input characters only in the whitespace "
             "consumers; output_text to write each chunk's text exactly once per forward-only iteration; do_space to be reachable only "
             "through the fusion guard, whose two setters sit under exactly the word/word and punctuator-relex tests; chunks never to be "
             "written left of the output column; newlines made inside directives to carry a backslash; and no chunk-editing site to be "
             "live with the code-modifying option families at their defaults. These are for-all-inputs statements about loss, "
-            "duplication, reordering and fusion. The numeric parts (columns, punctuator table contents, the Len()<4 heuristic) are not decided.", "DESIGN.md section 4 C02"),
-    "C03": ("table agreement between the tokenizer's literal types and output_text's is_literal test, exhaustiveness of the comment-type dispatch, shared effect census, who-may-call for the character writers",
+            "duplication, reordering and fusion. For each of the 766 punctuator pairs (per language) whose concatenation lexes to a longer first token - comment openers included - a forced blank is shown reachable in space_text; every deletion or swap of a line break is shown guarded by SafeToDeleteNl (not after a // comment, not across a directive end) or is one of four reviewed sites. The column arithmetic is not decided.", "DESIGN.md section 4 C02"),
+    "C03": ("table agreement between the tokenizer's literal types and output_text's is_literal test, exhaustiveness of the comment-type dispatch, shared effect census, who-may-call for the character writers, guard census of every line-break deletion/swap (SafeToDeleteNl)",
             "Every type a string parser can assign is written with is_literal=true; every CT_COMMENT* value any SetType can produce has "
             "a comment-writer arm; with the comment/string options at default no text-rewriting site is reachable; all characters "
-            "pass add_char/add_text. The re-flow and re-indent arithmetic inside the comment writers is not decided.", "DESIGN.md section 4 C03"),
+            "pass add_char/add_text; no line break is deleted or swapped with a token unless SafeToDeleteNl holds (so no token can be pulled into a // comment). The re-flow and re-indent arithmetic inside the comment writers is not decided.", "DESIGN.md section 4 C03"),
     "C04": ("effect analysis: census of every token-visible effect site (chunk text mutation, chunk creation, deletion, move) + inter-procedural liveness under the abstract default configuration (constant folding of dominating option tests along every call chain, latch flags included); same-block pairing of brace edits; guard analysis of brace removal; who-may-move in the sorters",
             "All 135 sites that can change, create, delete or move a chunk are enumerated; with the mod_/cmt_ option families at their "
             "defaults 105 are shown unreachable from uncrustify_file on every call chain, the rest act on newline/blank chunks by a "
             "dominating type test or are six reviewed exceptions - that is the property's last sentence for all inputs. Brace "
             "conversions, insertions and removals are shown to come in pairs under one path condition; braces are removed only after "
             "the body scan found the matching close brace with one statement and under a remove setting; sorting permutes whole lines "
-            "only. The statement counting inside can_remove_braces/examine_brace (the arithmetic) is not decided.", "DESIGN.md section 4 C04"),
-    "C06": ("three-valued abstract interpretation of every natural loop with a chunk cursor under cursor == NullChunk (navigation closure and predicate truth table derived from chunk.h/chunk.cpp bodies); guard analysis of every m_next/m_prev store; census of throwing conversions/regex constructions vs try blocks (AST ancestry); must-pass-through of a diagnostic before every non-zero exit; reachability of error exits from output_text",
+            "only; the token tested for `else` after a removable block is shown to be a real token (all virtual brace closes skipped by a loop) and an `else` there blocks the removal when the block contains an `if`. The statement counting inside can_remove_braces/examine_brace (the arithmetic) is not decided.", "DESIGN.md section 4 C04"),
+    "C06": ("three-valued abstract interpretation of every natural loop with a chunk cursor under cursor == NullChunk (navigation closure and predicate truth table derived from chunk.h/chunk.cpp bodies); guard analysis of every m_next/m_prev store; census of throwing conversions/regex constructions vs try blocks (AST ancestry); the same three-valued interpretation of every input-consuming tokenizer loop under the end-of-input state (more()=false, peek()/get()=0, helper functions evaluated on constants); interval analysis (literals, sizeof, dominating comparisons, BoundedOption ranges, loop-exit facts, unsigned-wrap obligations) of every write into a fixed-size character buffer; length-guard analysis of constant-index text accessors; must-pass-through of a diagnostic before every non-zero exit; reachability of error exits from output_text",
             "All 376 loops that advance a Chunk* cursor through the navigation family are shown escapable when the cursor is the null "
             "chunk (the hang class of truncated/unbalanced input: ten such loops were found and fixed); the null chunk's links are "
             "shown immutable, which is the lemma the walk analysis rests on; every regex construction from run-time text is inside "
             "a try block and every std::sto* behind a format check; each of the ~120 non-zero exits has a documented status and a "
-            "diagnostic on every path to it; no error exit is reachable once output has started except two recorded findings. "
-            "General memory safety/UB and wall-time bounds are not decided - they need a whole-program value analysis that is out "
+            "diagnostic on every path to it; no error exit is reachable once output has started except two recorded findings; all 48 tokenizer loops that read through TokenContext are shown escapable at the end of the input (one hang found and fixed); all 42 writes into fixed-size character buffers reachable from main are shown in bounds by interval facts (three overflows found and fixed, seven reviewed sites); every constant-index .at() on a chunk text has a dominating length test (one abort found and fixed). "
+            "Heap objects, iterator validity, integer overflow elsewhere and wall-time bounds are not decided - they need a whole-program value analysis that is out "
             "of reach for this code base with the tools present.", "DESIGN.md section 4 C06"),
-    "C07": ("dominance of the disabled-region test over every parser call in parse_next; data-flow of every character read by parse_ignored into the chunk text; guard of the strip loop; exact shape of the raw output branch; effect census restricted to CT_IGNORED; must-reset of cpd.unc_off",
+    "C07": ("dominance of the disabled-region test over every parser call in parse_next; data-flow of every character read by parse_ignored into the chunk text; guard of the strip loop; exact shape of the raw output branch; effect census restricted to CT_IGNORED; must-reset of cpd.unc_off; sibling agreement of the newline editors on the CT_IGNORED test",
             "While processing is off parse_ignored runs before every other parser and consumes no input before the test; it appends "
             "every character up to the line end and types the chunk CT_IGNORED; such chunks are not stripped, are written by the raw "
-            "branch of add_text only, are named by no editing site, and the newline after them is left alone; the off state is "
-            "cleared per file. Holds for arbitrary region content. The blank-line structure around a region is not decided.", "DESIGN.md section 4 C07"),
-    "C08": ("who-may-call for the character writers + guard analysis of add_char's CR/LF arms; extraction of the (option, census) -> terminator table at the tail of tokenize(); backward/forward must-pass-through pairing of every line-break event of the tokenizer with a census increment; CR/LF sibling-comparison check (thorough)",
+            "branch of add_text only, are named by no editing site, and the newline after them is left alone; newline_iarf_pair and newline_add_between refuse every edit whose second chunk is a region line; the off state is "
+            "cleared per file. Holds for arbitrary region content. Chunks that mod_ options insert next to a region line (a replayed defect of the pinned tree, DESIGN.md section 6) and the blank-line structure around a region are not decided.", "DESIGN.md section 4 C07"),
+    "C08": ("who-may-call for the character writers + guard analysis of add_char's CR/LF arms; extraction of the (option, census) -> terminator table at the tail of tokenize(); backward/forward must-pass-through pairing of every line-break event of the tokenizer with a census increment; census of every mention of cpd.le_counts (increments, the choice, the single reset); CR/LF sibling-comparison check (thorough)",
             "Every output character is shown to pass add_char, where LF becomes exactly cpd.newline and CR is dropped; cpd.newline "
             "is assigned only by an exhaustive three-row table at the end of tokenize(); each of the tokenizer's line-break events "
             "outside disabled regions is paired with one census increment on every path (4 string-parser sites are recorded known "
-            "findings with replay inputs); the thorough tier checks that every function comparing input with LF also handles CR. "
+            "findings with replay inputs); the census only grows between the first character and the choice - its only reset is in uncrustify_end, although tokenize() is re-entered for inserted comment templates; the thorough tier checks that every function comparing input with LF also handles CR. "
             "This is what makes terminator choice and normalisation independent of where a line break sits. The two-run "
             "commutation equations are not decided.", "DESIGN.md section 4 C08"),
-    "C20": ("must-pass-through of the nl_max test on every newline path of do_blank_lines; effect summaries (may-set-newline-count) over the call graph against the position of do_blank_lines in the newline loop; option provenance to count sinks vs the nl_max guard set; option-family partition of newlines_eat_start_end; guard/receiver analysis of the eat_blanks sites",
+    "C20": ("must-pass-through of the nl_max test on every newline path of do_blank_lines; effect summaries (may-set-newline-count) over the call graph against the position of do_blank_lines in the newline loop; option provenance to count sinks vs the nl_max guard set; option-family partition of newlines_eat_start_end; guard/receiver analysis of the eat_blanks sites; forced-fact path exploration of can_increase_nl (veto priority); neighbour-navigation check of newlines_cleanup_dup",
             "Every newline chunk outside disabled regions passes the nl_max cap, which lowers the count to the option value; inside the "
             "newline loop nothing that can raise a count runs after the cap except three calls shown to only lower or take the "
             "maximum; all count-raising options are compared with nl_max before any source is read (including --set overrides); "
             "start/end-of-file handling reads only its own option family on the matching end of the list; both eat_blanks options "
-            "reduce the brace-adjacent newline to one and veto increases. Holds for all inputs; the arithmetic between the ~40 "
+            "reduce the brace-adjacent newline to one and veto increases with priority over every rule except the nl_inside_* ones; one recorded finding: newline chunks separated by a virtual brace are capped separately and add up. Holds for all inputs; the arithmetic between the ~40 "
             "blank-line options and passes after the newline loop are not decided.", "DESIGN.md section 4 C20"),
     "C09": ("closed-form table agreement: numeric extraction of the UTF-8 encoder/decoder branch tables and of the UTF-16 surrogate arithmetic from the expression trees, exhaustiveness of the encoding switches, who-may-write for cpd.enc/cpd.bom and who-may-call for the byte writers",
             "For all six UTF-8 lengths the encoder's bit fields are shown disjoint and covering, its thresholds equal 2^(payload "
@@ -65,18 +65,18 @@ CLAIMS = {
             "write_char/write_bom cover every char_encoding_e value with the decoder's endianness; cpd.enc/cpd.bom change only in "
             "uncrustify_file by the documented policy table. These equalities hold for every code point, which is the exhaustive "
             "1.1M-scalar quantifier in closed form. The two-run transcoding equation itself is not decided.", "DESIGN.md section 4 C09"),
-    "C10": ("who-may-call over the call graph reachable from main; purity (effect) summaries propagated bottom-up and applied to every node that is control-dependent on log_sev_on() and to the observer entry points; banned-callee and pointer-order queries with a positive example",
+    "C10": ("who-may-call over the call graph reachable from main; purity (effect) summaries propagated bottom-up and applied to every node that is control-dependent on log_sev_on() and to the observer entry points; banned-callee and pointer-order queries with a positive example; the global-state reset analysis of C11 (delivery through a file list = independence of files)",
             "All delivery modes are shown to reach output_text only through uncrustify_file with the loaded file_mem; each of the ~16000 "
             "nodes that execute only when a log severity is enabled (all LOG_FMT arguments included) and every logging/dump/parsed-"
             "output function is shown free of writes to formatter state, so observer options cannot change the bytes; environment, "
             "clock, locale and random sources are read only at four reviewed sites; no pointer ordering or pointer-keyed iteration "
-            "exists. This covers every input and option subset at once. Uninitialised reads are not decided.", "DESIGN.md section 4 C10"),
+            "exists; delivery through -F or several positional files equals single-file delivery because no per-file global survives (rule C11.reset, shared). This covers every input and option subset at once. Uninitialised reads are not decided.", "DESIGN.md section 4 C10"),
     "C11": ("inter-procedural global-state analysis over the resolved call graph: per location, upward-exposed loads from do_source_file's entry (must-initialise summaries) and may-return-dirty summaries specialised on bool literals at call sites; must-pass-through for the per-file cleanup",
             "For each of the ~48 global locations that per-file code both writes and reads (cp_data_t fields, namespace/class/function "
             "statics, the option values) the check shows that no read can see a value left by a previous file, or that every return of "
             "do_source_file leaves it at its initial zero/empty value; 22 locations are reviewed exceptions (observer state, "
             "count-indexed arrays, scratch buffers), each a named symbol with its reason in rules/exceptions.json. Every path through "
-            "do_source_file reaches uncrustify_end, which empties the chunk list and undoes a pending Qt option override. This is a "
+            "do_source_file reaches uncrustify_end, which empties the chunk list and undoes a pending Qt option override; the override is saved only when none is pending. This is a "
             "statement over all file sequences, which pairwise sampling cannot give. Heap state reachable only through pointers and "
             "stores through reference aliases are outside the analysis.", "DESIGN.md section 4 C11"),
     "C12": ("guard analysis (dominating-edge facts incl. latch flags and a propositional step over main's option rejection) on do_source_file/main; who-may-write for the counter and both sinks; structural check of bout_content_matches",
@@ -86,10 +86,9 @@ CLAIMS = {
             "buffer and prints PASS/FAIL under the same conditions; write_byte is the only feeder of both sinks with the same value; "
             "the --if-changed early return precedes every file-creating event. Holds for all inputs/configurations; determinism of "
             "formatting itself is C10's subject.", "DESIGN.md section 4 C12"),
-    "C13": ("must-pass-through / dominance on do_source_file's CFG (backup < open(tmp) < write < close < rename, rename guarded by clean close) + who-may-call for rename/unlink/write-mode opens",
+    "C13": ("must-pass-through / dominance on do_source_file's CFG (backup < open(tmp) < write < close < rename, rename guarded by clean close) + who-may-call for rename/unlink/write-mode opens; reaching definitions of the write-error flag (must be fed by ferror); shape of make_output_filename (name identity for in-place detection)",
             "For every path of do_source_file(): only the suffixed temp name is opened for writing, a backup (unless no_backup) and its "
-            "failure exit precede it, fclose precedes rename with no write in between, the rename is control-dependent on a clean "
-            "ferror/fclose, and no other function renames/unlinks or opens files for writing. This ordering is what makes every "
+            "failure exit precede it, fclose precedes rename with no write in between, the rename is control-dependent on a flag fed by ferror(pfout) (the sticky indicator - the writers ignore their results) and by fclose, nothing is written after ferror was read, the output name for --replace reproduces the input name verbatim so that the textual in-place test fires, and no other function renames/unlinks or opens files for writing. This ordering is what makes every "
             "crash or fault point leave either the complete original or the complete new file; it holds for all inputs and fault "
             "points, which no fault-injection sample can enumerate. Kernel atomicity of rename(2) is assumed.", "DESIGN.md section 4 C13"),
     "C14": ("must-pass-through on do_source_file (md5 only after rename/unlink, with a checked flag-latch lemma) + guard analysis of backup_copy_file + writer/reader format table agreement",
@@ -97,25 +96,24 @@ CLAIMS = {
             "always recorded; backup_copy_file writes iff the recorded md5 differs from the md5 of exactly the bytes read and nothing "
             "else can skip it; writer and reader agree on 32 lower-case hex digits of dig[0..15]. That is the protocol of backup.h "
             "decided for all histories; MD5 arithmetic itself is not examined.", "DESIGN.md section 4 C14"),
-    "C15": ("writer/reader table agreement extracted from the parsed program (directive words, enum string tables of the generated option_enum.cpp, quote/escape sets), must-pass-through in save_option_file, registry census over the 857 option objects, who-may-write for Option::m_val",
+    "C15": ("writer/reader table agreement extracted from the parsed program (directive words, enum string tables of the generated option_enum.cpp, quote/escape sets), must-pass-through in save_option_file, registry census over the 857 option objects, who-may-write for Option::m_val, provenance of the values stored in the extension map, mutation census of the config line buffer",
             "Every directive the writers print is one the loader dispatches on; for all four enumerated option types "
             "convert_string(to_string(v)) = v and every advertised spelling is accepted; string values are written with exactly the "
             "reader's special characters escaped; the writer skips an option only under `minimal`; all 857 option objects are "
-            "registered once under their own lower-case identifier; option values are stored only by the reader functions. These "
+            "registered once under their own lower-case identifier; option values are stored only by the reader functions; file_ext mappings store the canonical table name the writer selects by; each config line reaches the quote-aware splitter unmodified. These "
             "are closed-form facts over the whole registry and all spellings. Numeric printf/strtol round-tripping and include "
             "resolution are not decided.", "DESIGN.md section 4 C15"),
-    "C16": ("guard analysis of every m_val store in the reader instantiations, must-pass-through (warning before every `return false`, effect-or-warning on every path of process_option_line), throwing-conversion census with dominating-check idioms, option-provenance to newline-count sinks vs the nl_max guard set, ordering in main",
-            "All 8 stores to an option value are shown to sit behind validate()/type tests; all 56 `return false` exits of the readers "
+    "C16": ("guard analysis of every m_val store in the reader instantiations, must-pass-through (warning before every `return false`, effect-or-warning on every path of process_option_line), throwing-conversion census with dominating-check idioms, option-provenance to newline-count sinks vs the nl_max guard set, ordering in main, call-graph cycle analysis with a depth-guard obligation",
+            "All 8 stores to an option value are shown to sit behind validate()/type tests and to store the very expression that was validated; all 56 `return false` exits of the readers "
             "and of every BoundedOption::validate instantiation are preceded by a diagnostic; no configuration line can be consumed "
-            "silently; every std::stoi-family call has a dominating digits/length check; all 139 unsigned options are bounded; every "
+            "silently; every std::stoi-family call has a dominating non-empty/digits/length check; all 139 unsigned options are bounded; every "
             "unsigned option that can raise a newline count is compared with nl_max, and that comparison runs after the last option "
-            "store and before any source is read. Holds for every configuration text; wording of diagnostics and include cycles are "
-            "not decided.", "DESIGN.md section 4 C16"),
+            "store and before any source is read. The include recursion load_option_file <-> process_option_line is shown depth-guarded (a self-including file overflowed the stack on the pinned tree; fixed). Holds for every configuration text; the wording of diagnostics is not decided.", "DESIGN.md section 4 C16"),
     "C17": ("who-may-call for the character writers; must-pass-through of the trailing-blank strip in tokenize(); constant folding of the tab decisions of output_text/add_char under the abstract configuration indent_with_tabs=0 (with path-sensitive refinement of reaching definitions); guard analysis of the blank buffer; option-family partition of the end-of-file policy",
             "Every chunk outside disabled regions loses its trailing blanks and tabs before it enters the chunk list, on every path; all "
             "output characters pass add_char, which buffers blanks and flushes them only before a non-blank; under indent_with_tabs=0 "
-            "(pp_indent_with_tabs -1/0) every line-start column advance folds to allow_tabs=false and a tab after a blank is expanded - "
-            "for all inputs and all other option values; the end-of-file newline policy reads only its own option family. Trailing "
+            "(pp_indent_with_tabs -1/0) every definition of allow_tabs that reaches the column advance of a line-start token folds to false and a tab after a blank is expanded - "
+            "for all inputs and all other option values; the reader of unknown directive bodies never appends a blank that follows a backslash (the strip keeps one such blank for // comments); the end-of-file newline policy reads only its own option family. Trailing "
             "blanks produced by column arithmetic inside comment continuation lines and alignment are not decided.", "DESIGN.md section 4 C17"),
     "C18": ("dominance / ordering of the pass pipeline in uncrustify_file and of structure-changing calls relative to indent_text (effect summaries over the call graph); "
             "taint census: every read of an original-position accessor reachable from indent_text, with inter-procedural liveness under the all-defaults abstract configuration (constant folding of dominating option tests along every call chain)",
